@@ -1,6 +1,7 @@
 """pairing_heap component: builds model driver + harness, generates cases, runs legs C and O into the given Check.
 Used by checks/c08.py."""
 import os
+import random
 import vlib
 from comp.pairing import gen
 
@@ -10,12 +11,21 @@ RULE = ("seeded push/pop/remove scripts over node pools of 4..48 nodes, 5 compar
         "children (0/odd/even); compared after EVERY op: top(), empty(), child/backlink/sibling of EVERY pool node and the sequence of "
         "Compare(a,b) calls made during the op; "
         "non-trivial = distinct script in which the real heap performed a remove of a non-root node that had children "
-        "and a pop/remove that collapsed >= 3 children (role/child-count histogram taken from the real hook dumps)")
+        "and a pop/remove that collapsed >= 3 children (role/child-count histogram taken from the real hook dumps). "
+        "POINTER-LEVEL model (coq/Pairing/PairingPtr.v, proved to refine the functional model): the same scripts, the same lines "
+        "(top, empty, every hook field, Compare call log) compared with the real code after every op, plus RAW scripts that "
+        "work on the bare hook memory: the private _merge/_collapse called directly on detached trees / hand-linked sibling "
+        "chains (also with a stale head backlink), pop/remove taken apart into single raw field writes so that the state "
+        "between unlink, _collapse and the final _merge is dumped and compared; raw non-trivial = distinct raw script with "
+        ">= 1 direct _collapse call over a chain of >= 3 trees and >= 1 direct _merge call")
 TRUSTED = ["extraction: ExtrOcamlBasic only; OCaml 4.13.1; comp/pairing/driver.ml (comparators re-implemented in OCaml)",
            "correspondence harness comp/pairing/harness.cpp (g++ -fsanitize=address,undefined, -fno-access-control)",
            "oracle: std::multiset reference + pointer walker in comp/pairing/harness.cpp",
-           "modelled, not verified: pointer surgery on the three hook fields (the model is the child/sibling tree; "
-           "every hook field is compared with the model's layout function after every op)"]
+           "comp/pairing/driver_ptr.ml (pointer-level model driver; re-tabulates the model's memory function over the pool ids "
+           "after every op)",
+           "transliteration of pairing_heap.hpp into coq/Pairing/PairingPtr.v (assignment by assignment, by hand): tied to the "
+           "source by the line-for-line comparison of all hook fields after every op and after direct _merge/_collapse calls; "
+           "the refinement pointer-level -> functional model is PROVED (Properties_C08_ptr.v), no longer trusted"]
 ASSUMPTIONS = ["Compare is a strict weak order: asymmetric and negatively transitive (Section hypotheses; heap order needs asymmetry only)",
                "element ids (node addresses) are unique; priorities of contained elements do not change",
                "push only of elements that are not contained, pop only when non-empty, remove only of contained elements "
@@ -80,18 +90,71 @@ def shape_stats(c, lines, ri):
         c.count("pairing_scripts_ending_in_" + out[-1])
     return "|".join(lines) if (inner_remove and big_collapse) else None
 
+def _is_raw(lines):
+    return bool(lines) and lines[0].split()[-1:] == ["raw"]
+
+def raw_stats(c, lines, ri):
+    """counters for a raw script from the REAL harness output; returns the nontrivial key or None"""
+    out = ri["lines"]
+    merges = sum(1 for l in out if l.startswith("m"))
+    collapses = [l for l in out if l.startswith("k")]
+    c.count("pairing_raw_direct_merge_calls", merges)
+    c.count("pairing_raw_direct_collapse_calls", len(collapses))
+    big = False
+    prev = None
+    ops = [l for l in lines[1:]]
+    # chain length of each direct _collapse: walk the sibling chain in the dump BEFORE the call
+    k = 0
+    for op in ops:
+        if k >= len(out) or out[k] in ("assert", "ub"):
+            break
+        t = op.split()
+        if t[0] == "k" and prev is not None and t[1].isdigit() and int(t[1]) < len(prev):
+            n, x = 0, t[1]
+            while x is not None and x.isdigit() and n <= len(prev):
+                n += 1; x = prev[int(x)][2]
+            c.count("pairing_raw_collapse_chain_" + _bucket(n))
+            big |= n >= 3
+        prev = _parse_state(out[k])[1]
+        k += 1
+    if out and out[-1] == "assert":
+        c.count("pairing_raw_scripts_ending_in_assert")
+    return "|".join(lines) if (big and merges >= 1) else None
+
+def run_ptr(c, har, drvp, cases, impl):
+    """pointer-level model: the same cases as the functional model (impl results reused) + raw cases"""
+    pm = vlib.run_cases(drvp, cases)
+    for cid, lines in cases:
+        ri, rm = impl.get(cid), pm.get(cid)
+        if ri is None or ri.get("crash"):
+            continue                       # already reported by the functional comparison
+        if rm is None:
+            c.mismatch(cid, lines, "pointer-level model produced no output"); continue
+        if rm.get("crash"):
+            c.mismatch(cid, lines, "pointer-level model driver crashed: " + rm["crash"][-300:]); continue
+        c.count("pairing_ptr_lines_compared", len(ri["lines"]))
+        d = vlib.first_diff(ri["lines"], rm["lines"])
+        if d:
+            c.mismatch(cid, lines, "pointer-level model: line %d: impl=%r model=%r" % d)
+
 def run(c):
     """legs C and O for pairing_heap; returns False if the harness could not be built."""
     okm, mlog = vlib.coq_make(["Pairing/PairingExtract.vo"])
     okd, drv, dlog = vlib.ocaml_build("pairing_m", ["pairing_model"], os.path.join(vlib.ROOT, "comp/pairing/driver.ml"))
+    okp, drvp, plog = vlib.ocaml_build("pairing_p", ["pairing_model"], os.path.join(vlib.ROOT, "comp/pairing/driver_ptr.ml"))
+    if okm and not okp:
+        c.broken.append("pairing pointer-level model driver build failed: " + plog[-500:])
     okh, har, hlog = vlib.cxx_build("pairing_h", os.path.join(vlib.ROOT, "comp/pairing/harness.cpp"))
     if not (okm and okd):
         c.broken.append("pairing model extraction/driver build failed: " + (mlog[-300:] if not okm else "") + dlog[-500:])
     if not okh:
         c.broken.append("pairing harness does not compile against the repo: " + hlog[-1500:])
         return False
+    raw = []
     if c.replay:
-        cases = vlib.read_replay(c.replay)
+        allc = vlib.read_replay(c.replay)
+        cases = [x for x in allc if not _is_raw(x[1])]
+        raw = [x for x in allc if _is_raw(x[1])]
     else:
         cases = gen.corpus()
         n = 1500 if c.tier == "quick" else 12000
@@ -105,6 +168,19 @@ def run(c):
             cases += gen.exhaustive_small(9, 6, (1,), 4, "ex9")
         else:
             cases += gen.exhaustive_small(6, 5, (1, 2), 0, "ex6")
+        # raw scripts for the pointer-level model: own generator stream, so the cases above do not depend on them
+        rrng = random.Random(c.seed * 7919 + 13)
+        raw = gen.raw_corpus()
+        for i in range(400 if c.tier == "quick" else 4000):
+            raw.append(("w%d" % i, gen.gen_raw_case(rrng, rrng.choice([8, 20, 50, 100]))))
+        if c.tier == "thorough":
+            raw += gen.raw_exhaustive_collapse(9, (1, 2), 0) + gen.raw_exhaustive_collapse(7, (1, 2, 3), 0)
+            raw += gen.raw_exhaustive_collapse(8, (1, 2), 0, True) + gen.raw_exhaustive_collapse(8, (1, 2), 4, True)
+            raw += gen.raw_exhaustive_collapse(7, (1, 2), 3) + gen.raw_exhaustive_collapse(7, (1, 2), 1)
+        else:
+            raw += gen.raw_exhaustive_collapse(5, (1, 2), 0) + gen.raw_exhaustive_collapse(4, (1, 2), 0, True)
+    for _, ls in raw:
+        c.count("pairing_raw_ops", max(0, len(ls) - 1))
     for _, ls in cases:
         c.count("pairing_ops", max(0, len(ls) - 1))
         if ls:
@@ -114,4 +190,9 @@ def run(c):
     impl = vlib.run_cases(har, cases)
     model = vlib.run_cases(drv, cases) if okd else {}
     c.compare(cases, impl, model, lambda cid, lines, ri: shape_stats(c, lines, ri))
+    if okp:
+        run_ptr(c, har, drvp, cases, impl)
+        if raw:
+            impl_raw = vlib.run_cases(har, raw)
+            c.compare(raw, impl_raw, vlib.run_cases(drvp, raw), lambda cid, lines, ri: raw_stats(c, lines, ri))
     return True
